@@ -148,13 +148,36 @@ fn voicing(engine0: &Engine, rng: &mut Rng, corpus: &Corpus, evs: &mut Vec<Value
 
 fn halftone(engine0: &Engine, rng: &mut Rng, corpus: &Corpus, evs: &mut Vec<Value>) -> Result<(), String> {
     let nl = 2 + rng.below(8);
-    let lines = corpus.utterance(rng, nl);
-    let labels = parse_all(&lines);
+    let mut lines = corpus.utterance(rng, nl);
     let mut engine = engine0.clone();
     random_condition(&mut engine, rng, false);
+    // thresholds below the voicing weight of the file's "never voiced" filler PDFs (mean 0, variance 1, weight 0.05 in the bundled voice)
+    // make those states voiced: their log-F0 mean 0 lies below the 20 Hz limit.  Such leaves are rare (two in the bundled voice), so a
+    // label that selects one is put into the utterance.
+    if rng.chance(0.3) {
+        engine.condition.set_msd_threshold(1, *rng.pick(&[0.0, 0.02, 0.04, 0.049]));
+        let with_filler: Vec<&String> = corpus.lines.iter().filter(|l| {
+            let Ok(lab) = l.parse::<Label>() else { return false };
+            let one = [lab];
+            let m = Models::new(&one, &engine.voices, engine.condition.get_interporation_weight());
+            m.model_stream(1).stream.iter().any(|(p, _)| p.iter().all(|mv| mv.0 == 0.0 && mv.1 == 1.0))
+        }).collect();
+        if !with_filler.is_empty() {
+            let at = rng.below(lines.len() + 1);
+            lines.insert(at, (*rng.pick(&with_filler)).clone());
+        }
+    }
+    let labels = parse_all(&lines);
     engine.condition.set_additional_half_tone(0.0);
     let (sp0, lf00, lpf0) = trajectories(&engine, &lines)?;
     let d0 = durations(&engine, &labels);
+    // h = 0 is the identity: the log-F0 trajectory is the one the public pipeline gives when the half-tone step is left out altogether
+    {
+        let m = Models::new(&labels, &engine.voices, engine.condition.get_interporation_weight());
+        let direct = jbonsai::mlpg_adjust::MlpgAdjust::new(engine.condition.get_gv_weight(1), engine.condition.get_msd_threshold(1), m.model_stream(1)).create(&d0);
+        evs.push(json!({"ev": "halftone", "h8": 0, "clamped": true, "diffs": [], "len_equal": true, "dur_equal": true, "nodata_equal": true,
+                        "spectrum_equal": true, "lpf_equal": true, "lf0_equal": digest2(&direct) == digest2(&lf00), "direct": true}));
+    }
     let w0 = engine.synthesize(&lines[..]).map_err(|e| e.to_string())?;
     let m = Models::new(&labels, &engine.voices, engine.condition.get_interporation_weight());
     let means: Vec<f64> = m.model_stream(1).stream.iter().map(|(p, _)| p[0].0).collect();
@@ -303,6 +326,38 @@ fn gv_flag_off(path: &str, corpus: &Corpus, evs: &mut Vec<Value>) -> Result<(), 
     let b = trajectories(&engine, &lines)?;
     let (x, y) = match s { 0 => (a.0, b.0), 1 => (a.1, b.1), _ => (a.2, b.2) };
     evs.push(json!({"ev": "gvoff", "stream": s, "flag_only": true, "unaffected": digest2(&x) == digest2(&y)}));
+    // ... and the same through the file: a copy of the voice whose header says USE_GV[stream]:0 while the GV tree / PDF positions
+    // stay in place (a header-only edit of the same length).  The loaded voice must say "no GV" for that stream, its trajectory
+    // must not move with the GV weight and must be the plain maximum-likelihood solution.
+    let raw = std::fs::read(path).map_err(|e| e.to_string())?;
+    for name in ["LF0", "MCP"] {
+        let pat = format!("USE_GV[{}]:1", name);
+        let Some(at) = raw.windows(pat.len()).position(|w| w == pat.as_bytes()) else { continue };
+        let mut edited = raw.clone();
+        edited[at + pat.len() - 1] = b'0';
+        static N: std::sync::atomic::AtomicUsize = std::sync::atomic::AtomicUsize::new(0);
+        let tmp = std::env::temp_dir().join(format!("jbv_nogv_{}_{}_{}.htsvoice", std::process::id(), name,
+                                                    N.fetch_add(1, std::sync::atomic::Ordering::SeqCst)));
+        std::fs::write(&tmp, &edited).map_err(|e| e.to_string())?;
+        let loaded = Engine::load(&[tmp.to_string_lossy().to_string()]);
+        std::fs::remove_file(&tmp).ok();
+        let mut engine = loaded.map_err(|e| e.to_string())?;
+        let types = (0..engine.voices.global_metadata().num_streams).map(|i| engine.voices.stream_metadata(i).use_gv).collect::<Vec<_>>();
+        let s = if name == "MCP" { 0 } else { 1 };
+        let a = trajectories(&engine, &lines)?;
+        engine.condition.set_gv_weight(s, 0.3);
+        let b = trajectories(&engine, &lines)?;
+        let labels = parse_all(&lines);
+        let dur = durations(&engine, &labels);
+        let m = Models::new(&labels, &engine.voices, engine.condition.get_interporation_weight());
+        let mut ms = m.model_stream(s);
+        let had_gv = ms.gv.is_some();
+        ms.gv = None;
+        let ml = jbonsai::mlpg_adjust::MlpgAdjust::new(engine.condition.get_gv_weight(s), engine.condition.get_msd_threshold(s), ms).create(&dur);
+        let (x, y) = match s { 0 => (a.0, b.0), _ => (a.1, b.1) };
+        evs.push(json!({"ev": "gvoff", "stream": s, "header_flag": true,
+                        "unaffected": !types[s] && !had_gv && digest2(&x) == digest2(&y) && digest2(&y) == digest2(&ml)}));
+    }
     Ok(())
 }
 
